@@ -173,6 +173,10 @@ def cases(tier, seed):
             t1 = str(Decimal(t0) + (k - frac) * Decimal(dt))
             grid = "non_multiple"
         spec = {"solver": solver, "system": system, "t0": t0, "t1": t1, "dt": dt, "grid": grid}
+        if solver in ("Moreau", "Rattle", "BackwardEuler") and system in SYSTEMS_CONTACT and rng.random() < 0.3:
+            # one sweep of the contact fixed point only: a step with an active contact does not converge; whatever the solver
+            # does then (raise, or announce and return the converged part), a returned Solution keeps its contract
+            spec["provoke_fixed_point"] = True
         if solver == "BackwardEuler" and rng.random() < 0.15:
             spec["provoke_truncation"] = True      # Newton budget too small: the solver must announce and return the truncated run
         if solver.startswith("Scipy") and rng.random() < 0.2:
@@ -537,7 +541,11 @@ def run_case(spec, ctx):
             elif sname == "DualStormerVerlet":
                 sol = cls(system, t1, dt, options=SolverOptions(), linear_solver=variant).solve()
             else:
-                sol = cls(system, t1, dt, options=hard if spec.get("provoke_truncation") else SolverOptions()).solve()
+                opts = hard if spec.get("provoke_truncation") else SolverOptions()
+                if spec.get("provoke_fixed_point"):
+                    opts = SolverOptions(fixed_point_max_iter=1)
+                    ctx.cls("options:fixed_point_budget_too_small")
+                sol = cls(system, t1, dt, options=opts).solve()
         except (RuntimeError, AssertionError, ValueError) as e:
             err = e
         except Exception as e:
